@@ -50,7 +50,8 @@ RECURSIVE Round(_, _, _), Iter(_, _, _, _, _, _, _), RunScript(_, _, _, _, _, _)
 \* a callback only uses a handle after checking isValid(): acting on a missing target is a no-op
 ApplyOp(R, op, self, a, d) ==
     LET t == IF op.t = 0 THEN self ELSE op.t IN
-    IF op.k = "notify" THEN (IF d < MaxDepth THEN Round(R, a, d + 1) ELSE R)
+    IF op.k = "throw" THEN [R EXCEPT !.abort = TRUE]     \* the callback throws: the exception leaves every notify() on the stack
+    ELSE IF op.k = "notify" THEN (IF d < MaxDepth THEN Round(R, a, d + 1) ELSE R)
     ELSE IF op.k = "sub"
          THEN IF R.nid <= MaxSubs /\ FreeExtra(R) # {}
               THEN LET h == CHOOSE x \in FreeExtra(R) : TRUE IN
@@ -64,10 +65,10 @@ ApplyOp(R, op, self, a, d) ==
     ELSE [R EXCEPT !.subs = Upd(@, t, "valid", FALSE)]       \* "inval"
 
 RunScript(R, sc, i, self, a, d) ==
-    IF i > Len(sc) THEN R ELSE RunScript(ApplyOp(R, sc[i], self, a, d), sc, i + 1, self, a, d)
+    IF i > Len(sc) \/ R.abort THEN R ELSE RunScript(ApplyOp(R, sc[i], self, a, d), sc, i + 1, self, a, d)
 
 Iter(R, snap, i, a, d, touched, rn) ==
-    IF i > Len(snap) THEN R
+    IF i > Len(snap) \/ R.abort THEN R
     ELSE LET id == snap[i] IN
          IF ~Active(R.subs, id) THEN Iter(R, snap, i + 1, a, d, touched, rn)     \* removed before its turn: skipped
          ELSE LET e == Entry(R.subs, id)
@@ -78,7 +79,8 @@ Iter(R, snap, i, a, d, touched, rn) ==
                         ELSE R
                   R2 == IF called THEN RunScript(R1, e.script, 1, id, a, d) ELSE R1
                   \* an observer found invalid is unsubscribed right after its turn
-                  R3 == IF Active(R2.subs, id) /\ ~Entry(R2.subs, id).valid
+                  \* (not reached when the callback threw: the round ends there, the observer stays as it is)
+                  R3 == IF ~R2.abort /\ Active(R2.subs, id) /\ ~Entry(R2.subs, id).valid
                         THEN [R2 EXCEPT !.subs = Remove(@, id)] ELSE R2
               IN Iter(R3, snap, i + 1, a, d, touched \cup MuteChanged(R1.subs, R2.subs), rn)
 
@@ -126,9 +128,10 @@ Swap(h1, h2) == /\ Can("Swap") /\ h1 \in Handles /\ h2 \in Handles /\ h1 # h2 /\
                 /\ handle' = [handle EXCEPT ![h1] = handle[h2], ![h2] = handle[h1]]
                 /\ res' = "ok" /\ log' = <<>> /\ UNCHANGED <<subs, nid>> /\ UNCHANGED nn
 Notify(a) == /\ Can("Notify") /\ a \in Args
-             /\ LET R == Round([subs |-> subs, handle |-> handle, nid |-> nid, log |-> <<>>, rc |-> 0], a, 1) IN
-                subs' = R.subs /\ handle' = R.handle /\ nid' = R.nid /\ log' = R.log
-             /\ res' = "ok" /\ nn' = IF CountNotifies THEN nn + 1 ELSE nn
+             /\ LET R == Round([subs |-> subs, handle |-> handle, nid |-> nid, log |-> <<>>, rc |-> 0, abort |-> FALSE], a, 1) IN
+                /\ subs' = R.subs /\ handle' = R.handle /\ nid' = R.nid /\ log' = R.log
+                /\ res' = IF R.abort THEN "threw" ELSE "ok"     \* a callback threw: the caller of notify() gets the exception; later rounds are ordinary rounds
+             /\ nn' = IF CountNotifies THEN nn + 1 ELSE nn
 
 Next == \/ \E h \in AllHandles : \/ \E sc \in Scripts : Subscribe(h, sc) \/ SubscribeMuted(h, sc)
                                   \/ UnsubF(h)
